@@ -28,7 +28,7 @@ RULE = ("cases: configurators over 3-6 boolean items with 1-3 rules (plain and d
         ' Also: configurators read from harness-written JSON, defaulted rules nested under plain connectives, a rule replaced in place between two selects.')
 BUDGET = {"quick": (12, 260, 90), "thorough": (16, 2000, 1200)}
 MANDATORY = ["judged:pair-order", "judged:argmax-set", "judged:default-prios", "count:with-defaults", "count:with-user-prios",
-             "count:user-prio-on-helper", "count:negative-user-prio", "count:ties-in-user-prios", "count:built-from-json"]
+             "count:user-prio-on-helper", "count:negative-user-prio", "count:ties-in-user-prios", "count:built-from-json", "count:select-on-unpacked-polyhedron"]
 
 
 def clear_caches():
@@ -162,7 +162,7 @@ def install(ctx):
 
 def gen_case(rng, tier, ctx, i):
     rec = confgen.gen_config(rng)
-    case = {"recipe": rec, "seed": rng.getrandbits(32), "nprios": rng.randint(1, 3), "route": "json" if rng.random() < 0.25 else "ctor"}
+    case = {"recipe": rec, "seed": rng.getrandbits(32), "nprios": rng.randint(1, 3), "route": rng.choice(["json", "ctor", "ctor", "b64", "ctor"])}
     if rng.random() < 0.2:
         # replacement for one rule: same explicit id, same kind of rule, another default / other alternatives
         idx = rng.randrange(len(rec["args"]))
@@ -201,7 +201,14 @@ def run_case(case, ctx):
         prios_list.append(d)
     rec = {}
     spy = confgen.exact_solver_factory(rec)
-    res = ctx.call("select", lambda: list(cfg.select(*[dict(p) for p in prios_list], solver=spy)))
+    if case.get("route") == "b64":
+        # the configured polyhedron after a base64 round trip is what a service would solve on
+        ctx.count("count:select-on-unpacked-polyhedron")
+        packed = ctx.call("to_b64", lambda: cfg.ge_polyhedron.to_b64())
+        unpacked = ctx.call("from_b64", pnd.ge_polyhedron_config.from_b64, packed)
+        res = ctx.call("select", lambda: list(unpacked.select(*[dict(p) for p in prios_list], solver=spy)))
+    else:
+        res = ctx.call("select", lambda: list(cfg.select(*[dict(p) for p in prios_list], solver=spy)))
     if "objectives" not in rec:
         ctx.check(False, "pair-order", lambda: {"recipe": case["recipe"], "note": "solver callable was never invoked"})
         return
